@@ -323,6 +323,11 @@ def fixed_oracle_cases():
     yield sub("root", [], [sub("mains", [], [sub("slow", [r("ragu.md", "Ragu", 2)])])]), 2
     yield sub("root", []), 1
     yield sub("root", [r("plain.md", "Plain", None)]), 3
+    # a recipe for very many (serving counts beyond the small integers), linked to from a plain and from a scalable recipe
+    feast = r("feast.md", "Feast", 257)
+    note = dict(file="note.md", title="Note", servings=None, links=[("Lfeast", "feast.md", ("recipe", "feast.md"))])
+    two = dict(file="two.md", title="Two", servings=2, links=[("Lfeast2", "./feast.md#top", ("recipe", "feast.md"))])
+    yield dict(name="root", readme=None, recipes=[feast, note, two], subdirs=[], assets=[]), 257
 
 
 def oracle(run):
